@@ -9,6 +9,11 @@ from .expr import render
 from .model import CAST_KINDS, TRANSPARENT
 
 
+# functions of the C library / platform that rules stub although the analysed units only call them
+EXTERNAL_NAMES = {"sigsetjmp", "__sigsetjmp", "siglongjmp", "_longjmp", "__longjmp_chk", "fork", "waitpid", "kill", "_exit", "exit", "_Exit", "abort", "longjmp", "setjmp", "_setjmp", "pthread_mutex_lock", "pthread_mutex_unlock", "pthread_mutex_init",
+                  "pthread_mutex_destroy", "vsnprintf", "memset", "memcpy", "strlen", "malloc", "free", "realloc", "fopen", "fputs", "fclose", "fflush", "time", "localtime", "strftime"}
+
+
 class Unknown(Exception):
     pass
 
@@ -84,6 +89,34 @@ class Evaluator:
         if not hasattr(prog, "_fields_of"):
             prog._fields_of = {qn: {fl["name"] for fl in r.get("fields", [])} for qn, r in prog.records.items()}
             prog._all_fields = set().union(*prog._fields_of.values()) if prog._fields_of else set()
+        # every stub the rule installs must stand for something the program has: a stub for a function that was renamed
+        # is never called, and the rule would judge the absence of the call
+        if not hasattr(prog, "_callable_names"):
+            cn = {g.qn for g in prog.functions.values()}
+            meths = {}
+            for qn, r in prog.records.items():
+                meths[qn] = {m_["name"] for m_ in r.get("methods", [])}
+            prog._callable_names, prog._methods_of = cn, meths
+        for nm in (self.calls or {}):
+            if not isinstance(nm, str) or nm in prog._callable_names:
+                continue
+            if "::" in nm:
+                cls_, mname = nm.rsplit("::", 1)
+                c_, found = cls_, False
+                for _ in range(8):
+                    if mname in prog._methods_of.get(c_, ()) or (c_ + "::" + mname) in prog._callable_names or mname in prog._fields_of.get(c_, ()):
+                        found = True
+                        break
+                    bs = prog.records.get(c_, {}).get("bases") or []
+                    if not bs:
+                        break
+                    c_ = bs[0]
+                if not found and cls_ in prog.records:
+                    raise AnalysisBroken("the rule installs a stub for %s, which the program does not declare (renamed or removed?): the rule must be re-anchored" % nm)
+            elif nm in prog.globals or nm.startswith(("operator", "__")) or nm in EXTERNAL_NAMES or nm in {q["name"] for q in f.params}:
+                continue        # (a global function pointer, an operator, a libc function, a function-pointer parameter)
+            elif re.match(r"^[A-Za-z_]\w*$", nm) and not getattr(prog, "partial", False):
+                raise AnalysisBroken("the rule installs a stub for %s, which the program does not declare (renamed or removed?): the rule must be re-anchored" % nm)
         objs = {}
         for k in self.env:
             m = re.match(r"^@(-?\d+)\.([A-Za-z_]\w*)", k) if isinstance(k, str) else None
